@@ -118,6 +118,27 @@ def _reduced_mod32(e: ast.AST) -> bool:
     return False
 
 
+def _signed_distance_key(key: ast.AST, bases: Set[str]) -> bool:
+    """key is `lambda x: ((x.seq - base + 2^31) mod 2^32) [- 2^31]` for a base in `bases` (serial-number order, RFC 1982)."""
+    from .pkn import nf
+    if not isinstance(key, ast.Lambda) or len(key.args.args) != 1:
+        return False
+    p = key.args.args[0].arg
+    for n in ast.walk(key.body):
+        if isinstance(n, ast.BinOp) and ((isinstance(n.op, ast.Mod) and try_fold(n.right) == 1 << 32) or (isinstance(n.op, ast.BitAnd) and try_fold(n.right) == 0xFFFFFFFF)):
+            for b in bases:
+                env = {f"{p}.seq": ("s", "X"), b: ("s", "B")}
+                want = nf(ast.parse("X - B + 2147483648", mode="eval").body, {"X": ("s", "X"), "B": ("s", "B")})
+                if nf(n.left, env) == want:
+                    # whatever surrounds the reduction must be monotone: nothing, or subtraction of a constant
+                    if n is key.body:
+                        return True
+                    par = key.body
+                    if isinstance(par, ast.BinOp) and isinstance(par.op, (ast.Sub, ast.Add)) and par.left is n and isinstance(try_fold(par.right), int):
+                        return True
+    return False
+
+
 def rule_D9_seq(tree: Tree) -> RuleResult:
     r = RuleResult("D9s", "TCP sequence arithmetic that feeds a comparison or sort key is reduced modulo 2^32")
     for qn in ("Session.extract_server_buf", "Session.extract_client_buf"):
@@ -159,14 +180,20 @@ def rule_D9_seq(tree: Tree) -> RuleResult:
             for k in sc.keywords:
                 if k.arg == "key" and ".seq" in src(k.value) and "-" in src(k.value):
                     names = {x.id for x in ast.walk(k.value) if isinstance(x, ast.Name)}
+                    frombuf = []
                     for a in body_walk(f.node):
                         if isinstance(a, ast.Assign) and dotted(a.targets[0]) in names and "_packet_buffer[" in src(a.value):
-                            badbase.append(src(a, 80))
+                            frombuf.append(a)
                     if "_packet_buffer[" in src(k.value):
                         badbase.append(src(k.value, 80))
+                    elif frombuf and not _signed_distance_key(k.value, {dotted(a.targets[0]) for a in frombuf}):
+                        # an element of the buffer is a valid base only for the *signed* distance ((seq - base + 2^31) mod 2^32):
+                        # segments that precede the base then sort before it
+                        badbase.append(src(frombuf[0], 80))
         r.ob(not badbase, Finding("D9s", f"session:{qn}:seq-sort-base",
-                                  f"{qn}: the relative sort key takes its base from the buffer being sorted (`{badbase[0] if badbase else ''}`): when the first buffered segment was overtaken "
-                                  f"(arrival S2 S1 S3) its predecessors wrap to the far end and the run is framed out of order", f.module.line(f.node)))
+                                  f"{qn}: the sort key is the unsigned distance to an element of the buffer being sorted (`{badbase[0] if badbase else ''}`): when that segment was overtaken "
+                                  f"(arrival S2 S1 S3) its predecessors wrap to the far end and the run is framed out of order; with a base from the buffer the key must be the signed "
+                                  f"distance (seq - base + 2^31) mod 2^32", f.module.line(f.node)))
         r.ob(not raw, Finding("D9s", f"session:{qn}:seq-sort-absolute",
                               f"{qn}: `{raw[0] if raw else ''}` orders buffered segments by absolute sequence number: after a wrap the segment with the "
                               f"numerically small number sorts before its predecessors", f.module.line(f.node)))
